@@ -97,7 +97,25 @@ Definition c04_sched_spec (case i : sx) : bool :=
    then forallb (fun w => existsb (fun e => match e with EWake w' => N.eqb w w' | _ => false end) log) (requests ls)
    else true).
 
-(* unscheduled runs: flush records (thread, entries this thread had appended before, log length when ready) *)
+(* unscheduled runs: flush records (thread, entries this thread had appended before, log length when ready).
+   The requester's own earlier appends are (t,0) .. (t,before-1); linear-time version of [barrier_check]. *)
+Definition mine (t : N) (before : nat) (e : ent) : bool := N.eqb (fst e) t && N.ltb (snd e) (N.of_nat before).
+
+Fixpoint flushed_after_mine (t : N) (before : nat) (pre : list ev) (st : bool) : bool :=
+  match pre with
+  | [] => st
+  | ENext e _ :: r => flushed_after_mine t before r (if mine t before e then false else st)
+  | EFlush _ :: r => flushed_after_mine t before r true
+  | _ :: r => flushed_after_mine t before r st
+  end.
+
+Definition barrier_check_mine (t : N) (before : nat) (pre post : list ev) : bool :=
+  let delivered := length (filter (mine t before) (nexts pre)) in
+  (* what is not in the log by now never gets there, and an overflow was counted for each *)
+  negb (existsb (mine t before) (nexts post)) &&
+  Nat.leb (before - delivered) (count_over pre) &&
+  flushed_after_mine t before pre false.
+
 Definition c04_stress_spec (case i : sx) : bool :=
   let log := stress_events i in
   let stalled := sx_bool (sx_arg case 4) in
@@ -108,7 +126,7 @@ Definition c04_stress_spec (case i : sx) : bool :=
              if Z.ltb pos 0 then stalled      (* never completed: only acceptable while the writer was held *)
              else let pre := firstn (Z.to_nat pos) log in
                   if has_drop_b pre then true
-                  else barrier_check (thread_seq t before) pre log)
+                  else barrier_check_mine t before pre (skipn (Z.to_nat pos) log))
           (sx_list (sx_nth i 1)).
 
 Definition c04_holds (x : sx) : sx :=
